@@ -185,7 +185,7 @@ class Interp:
                 for part in self.split_args(m.group(2)):
                     fields.append(self.operand(part.split(':', 1)[1], env))
             return Closure(m.group(1), fields)
-        m = re.fullmatch(r'([\w:]+) \{ (.*) \}', rv)
+        m = re.fullmatch(r'([\w:]+(?:::<[^{}]*>)?) \{ (.*) \}', rv)
         if m:
             names, fields = [], []
             for part in self.split_args(m.group(2)):
@@ -261,6 +261,8 @@ class Interp:
         return self.exec_block(bb, env)
 
     def exec_block(self, bb, env):
+        if bb in getattr(self, 'redirect', {}):
+            bb = self.redirect[bb](env)      # e.g. a loop header summarised by havoc: continue at the loop exit
         self.steps += 1
         if self.steps > 5000: raise Unsupported('too many blocks executed (loop?)')
         sts = self.f.blocks[bb]
